@@ -4,6 +4,10 @@
 //
 // argv: --log PATH --fault stop|exit|return|segv|abrt|fpe|ill|int|term --n N --k K --j J(-1 = backend asleep)
 //       --clock system|tsc --cycles 1|2 --second none|finished|alive --handler 0|1
+//       --tpos P   the second thread logs T1,T2 after the main thread's statement number P (0 = before all of them, so the
+//                  second thread registers first; >= 1: the main thread registers first)
+//       --fpos P   (-1 = none) a flusher thread calls flush_log() after the main thread's statement number P (before the
+//                  second thread if P == tpos) and stays blocked in it for as long as the backend is held
 #include "quill/Backend.h"
 #include "quill/Frontend.h"
 #include "quill/LogMacros.h"
@@ -52,6 +56,20 @@ public:
   }
 };
 
+// state letter of a task of this process from /proc (R running, S sleeping, ...)
+static char task_state(long tid)
+{
+  char path[64], buf[512];
+  snprintf(path, sizeof path, "/proc/self/task/%ld/stat", tid);
+  FILE* f = fopen(path, "r");
+  if (!f) return '?';
+  size_t n = fread(buf, 1, sizeof buf - 1, f);
+  fclose(f);
+  buf[n] = 0;
+  char const* p = strrchr(buf, ')');
+  return (p && p[1] == ' ') ? p[2] : '?';
+}
+
 static char const* arg(int argc, char** argv, char const* k, char const* d)
 {
   for (int i = 1; i + 1 < argc; ++i)
@@ -90,37 +108,66 @@ int main(int argc, char** argv)
   Logger* lg = Frontend::create_or_get_logger("root", sink, PatternFormatterOptions{"%(message)"}, cs);
   sink.reset();
 
-  int pre = 0; // statements of the second thread (logged before the main thread's)
-  std::thread second_thread;
-  std::atomic<int> park{0};
-  if (second != "none")
+  int const tpos = atoi(arg(argc, argv, "--tpos", "0"));
+  int const fpos = atoi(arg(argc, argv, "--fpos", "-1"));
+  int pre = 0; // statements of the second thread
+  std::thread second_thread, flusher_thread;
+  // everything the helper threads touch after the main thread may have left main() is static or captured by value
+  static std::atomic<int> park{0};
+  static std::atomic<int> flusher_tid{0}, flusher_done{0};
+  bool const second_alive = second == "alive";
+  auto run_flusher = [&]
   {
-    std::atomic<int> logged{0};
+    flusher_thread = std::thread(
+      [lg]
+      {
+        flusher_tid.store(static_cast<int>(syscall(SYS_gettid)));
+        lg->flush_log();
+        flusher_done.store(1);
+      });
+    // go on once the flush request is enqueued: the flusher returned, or sleeps inside flush_log's wait loop (the request is
+    // pushed before the first sleep; nothing before it sleeps)
+    int seen = 0;
+    while (!flusher_done.load() && seen < 3)
+    {
+      std::this_thread::sleep_for(std::chrono::microseconds{300});
+      int const tid = flusher_tid.load();
+      seen = (tid && task_state(tid) == 'S') ? seen + 1 : 0;
+    }
+  };
+  auto run_second = [&]
+  {
+    static std::atomic<int> logged{0};
     second_thread = std::thread(
-      [&]
+      [lg, second_alive]
       {
         LOG_INFO(lg, "T1");
         LOG_INFO(lg, "T2");
         logged.store(1);
         fwake(&logged);
-        if (second == "alive")
+        if (second_alive)
           while (true) fwait(&park, 0); // alive and parked until the process ends
       });
     while (logged.load() == 0) fwait(&logged, 0);
     if (second == "finished") second_thread.join();
     pre = 2;
-  }
+  };
 
-  // the main thread's statements up to the fault point
-  for (int i = 1; i <= k; ++i) LOG_INFO(lg, "M{}", i);
+  // the main thread's statements up to the fault point, the other threads at their positions
+  for (int i = 0; i <= k; ++i)
+  {
+    if (i >= 1) LOG_INFO(lg, "M{}", i);
+    if (fpos == i) run_flusher();
+    if (second != "none" && tpos == i) run_second();
+  }
 
   if (!asleep)
   {
-    // let the backend write exactly pre + j statements, then wait until it is provably stuck at the next one (if any)
-    int const grant = pre + j;
+    // let the backend write exactly j statements, then wait until it is provably stuck at the next one (if any)
+    int const grant = j; // counted over the whole sequence (second thread's statements included)
     g_granted.store(grant);
     fwake(&g_granted);
-    while (g_written.load() < grant) fwait(&g_written, g_written.load());
+    for (int v; (v = g_written.load()) < grant;) fwait(&g_written, v); // one load: no lost wake-up
     if (pre + k > grant)
       while (g_waiting.load() == 0 || g_written.load() != grant) fwait(&g_waiting, 0);
     else
@@ -144,12 +191,14 @@ int main(int argc, char** argv)
       LOG_INFO(lg, "R2");
       Backend::stop();
     }
+    if (flusher_thread.joinable()) flusher_thread.join(); // the drain processed the flush request
     fprintf(stdout, "stopped\n");
     fflush(stdout);
     if (second == "alive") _exit(0); // a parked thread cannot be joined; the statements are already on disk
     return 0;
   }
   if (fault == "exit") std::exit(0);
+  if (flusher_thread.joinable()) flusher_thread.detach();
   if (fault == "return")
   {
     if (second == "alive") second_thread.detach();
